@@ -216,6 +216,8 @@ def skip_param_attrs(p, collect=None):
                     if collect is not None:
                         collect[v] = ty
                 else:
+                    if collect is not None and p.peek()[0] == 'int':
+                        collect[v] = int(p.peek()[1])
                     while not p.at(')'):
                         p.next()
                 p.expect(')')
@@ -497,12 +499,17 @@ class Module:
         p.next()  # define/declare
         f = Func()
         # skip linkage etc & return attrs until type start
+        f.ret_attrs = {}
         while not is_type_start(p.peek()):
             k, v = p.next()
             if v in ('internal', 'private', 'linkonce_odr', 'weak_odr', 'available_externally', 'weak', 'linkonce'):
                 f.linkage = v
+            if v in ('nonnull', 'noalias'):
+                f.ret_attrs[v] = True
             if p.at('(') and v in PARAM_ATTR_PAREN:
                 p.next()
+                if p.peek()[0] == 'int':
+                    f.ret_attrs[v] = int(p.peek()[1])
                 while not p.at(')'):
                     p.next()
                 p.expect(')')
@@ -2103,7 +2110,40 @@ def translate(ll_text, roots, cut=(), opts=None, keep_addr_taken=()):
     h = [PRELUDE, '\n'.join(em.fwd), '\n'.join(em.tdecl), '\n'.join(have), '\n'.join(defmacros), '\n'.join(gl_decls),
          '\n'.join(proto_txt)]
     c = ['#include "unit.h"', '\n'.join(gtxt), '\n\n'.join(fn_bodies)]
-    info = {'encoded': sorted(encoded), 'bodyless': sorted(bodyless),
+    def tdesc(t):
+        d = {'c': em.ct(t), 'kind': t[0]}
+        if t[0] == 'ptr':
+            pt = t[1]
+            d['pointee_kind'] = pt[0]
+            if pt[0] == 'named':
+                d['pointee'] = pt[1]
+            try:
+                d['pointee_size'] = em.size_align(pt)[0]
+            except Exception:
+                d['pointee_size'] = None
+            d['pointee_c'] = em.ct(pt) if pt[0] != 'func' else None
+        elif t[0] == 'int':
+            d['bits'] = t[1]
+        return d
+    pinfo = {}
+    for name, f in protos:
+        if name in enc:
+            continue
+        rd = tdesc(f.ret)
+        rd.update({k_: v_ for k_, v_ in getattr(f, 'ret_attrs', {}).items()})
+        ps = []
+        for t, n, a in f.params:
+            d = tdesc(t)
+            for k_ in ('sret', 'byval'):
+                if k_ in a:
+                    d[k_] = True
+            for k_ in ('nonnull', 'dereferenceable', 'readonly', 'noalias'):
+                if k_ in a:
+                    d[k_] = a[k_]
+            ps.append(d)
+        pinfo[name] = {'c_name': em.cident(name), 'ret': rd, 'params': ps, 'vararg': f.vararg,
+                       'signature': em.fn_signature(f, False, weak=True)}
+    info = {'encoded': sorted(encoded), 'bodyless': sorted(bodyless), 'protos': pinfo,
             'names': {k: v for k, v in em.gname.items()},
             'structs': em.named_c}
     return '\n'.join(h) + '\n', '\n'.join(c) + '\n', info
